@@ -1,6 +1,6 @@
 (* C08: between operations the resource model holds no temporary (int_key, tr.first, the converted pairs, ar, a pending
-   node): whatever fails inside a store, the blocks recorded afterwards all belong to the four indexes; after a clear() that did
-   not throw only the bucket vectors are recorded, none at all with limit 0. *)
+   node): whatever fails inside a store, the blocks recorded afterwards all belong to the four indexes; after a clear() - whether or
+   not one of its rehash calls threw - only bucket vectors are recorded, none at all with limit 0. *)
 From CppcmsV Require Import Base.Tac C07.Defs C08.Defs C08.ResDefs.
 Import ListNotations.
 Local Open Scope N_scope.
@@ -199,13 +199,19 @@ Proof.
     apply only_tabs. apply (only_free_to A A); [|exact H1]. intros t K. apply andb_true_iff in K. exact (proj1 K).
 Qed.
 
+Lemma only_two_regrows (A : tag -> bool) r : (forall w g, A (TV w g) = true) -> only A r ->
+  only A (fst (bind (regrow true r) (regrow false))).
+Proof.
+  intros Hv H. unfold bind.
+  pose proof (only_regrow A true r (Hv true) H) as H1.
+  destruct (snd (regrow true r)); [|exact H1]. apply only_regrow; [apply Hv|exact H1].
+Qed.
+
 Lemma only_nl_clear (A : tag -> bool) r : (forall w g, A (TV w g) = true) -> only A r -> only A (fst (nl_clear r)).
 Proof.
-  intros Hv H. unfold nl_clear, bind.
-  assert (H1 : only A (fst (regrow true (free_where primary_side r)))).
-  { apply only_regrow; [apply Hv|]. apply (only_free_to A A); [|exact H]. intros t K. apply andb_true_iff in K. exact (proj1 K). }
-  destruct (snd (regrow true (free_where primary_side r))); [|exact H1].
-  apply only_regrow; [apply Hv|]. apply (only_free_to A A); [|exact H1]. intros t K. apply andb_true_iff in K. exact (proj1 K).
+  intros Hv H. unfold nl_clear. cbv zeta. apply only_two_regrows; [exact Hv|].
+  apply (only_free_to A A); [intros t K; apply andb_true_iff in K; exact (proj1 K)|].
+  apply (only_free_to A A); [intros t K; apply andb_true_iff in K; exact (proj1 K)|exact H].
 Qed.
 
 Lemma only_all r : only (fun _ => true) r.
@@ -229,11 +235,12 @@ Qed.
 
 Lemma clean_rstep prot o r : clean r -> clean (rstep prot o r).
 Proof.
-  intros H. destruct o as [k v trigs ev|k|t| |f]; cbn [rstep].
+  intros H. destruct o as [k v trigs ev|k|t| |k|f]; cbn [rstep].
   - apply clean_store. exact H.
   - apply only_delete_node. exact H.
   - apply only_fold_delete. exact H.
   - unfold rclear. apply only_nl_clear; [reflexivity|exact H].
+  - exact H.
   - exact H.
 Qed.
 
@@ -243,39 +250,14 @@ Proof.
   induction ops as [|o ops IH]; intros r H; cbn [rrun fold_left]; [exact H|]. apply IH. apply clean_rstep. exact H.
 Qed.
 
-(* ---- what a clear() that did not throw leaves: nothing but the two bucket vectors; nothing at all with limit 0 ---- *)
+(* ---- what clear() leaves - WHETHER OR NOT one of its two rehash calls throws: nothing but bucket vectors; nothing at all with limit 0 ---- *)
 Definition is_tv (t : tag) : bool := match t with TV _ _ => true | _ => false end.
 
-Lemma filter_only (A Q : tag -> bool) (l : list (tag * N)) : (forall t, A t = true -> Q t = true) ->
-  forallb (fun e => A (fst e)) l = true -> filter (fun e => negb (Q (fst e))) l = [].
+Lemma clear_only_vectors r : clean r -> only is_tv (rclear r).
 Proof.
-  intros W. induction l as [|e l IH]; cbn [forallb filter]; [reflexivity|].
-  intros K. apply andb_true_iff in K. destruct K as [K1 K2]. rewrite (W _ K1). cbn [negb]. exact (IH K2).
-Qed.
-
-Lemma regrow_ok_tags (A : tag -> bool) w r : only A r -> snd (regrow w r) = true ->
-  only (fun t => (A t && negb (is_vec w t)) || is_vec w t) (fst (regrow w r)).
-Proof.
-  intros H. unfold regrow. destruct (r_limit r =? 0); cbn [fst snd]; intros Hs.
-  - apply only_tabs. apply (only_free_to A _ (is_vec w)); [|exact H]. intros t K. rewrite K. reflexivity.
-  - pose (A' := fun t => (A t && negb (is_vec w t)) || is_vec w t).
-    assert (H0 : only A' r).
-    { apply (only_weaken A A'); [|exact H]. intros t K. unfold A'. rewrite K. destruct (is_vec w t); reflexivity. }
-    assert (Hv : A' (TV w (N.succ (r_gen r))) = true) by (unfold A'; cbn [is_vec]; rewrite Bool.eqb_reflx; apply orb_true_r).
-    pose proof (only_ralloc A' _ (sz_bucket * r_limit r) r Hv H0) as H1.
-    destruct (ralloc (TV w (N.succ (r_gen r))) (sz_bucket * r_limit r) r) as [r1 [|]]; cbn [fst snd] in *; [|discriminate].
-    apply only_tabs. apply (only_free_to A' A'); [|exact H1]. intros t K. apply andb_true_iff in K. exact (proj1 K).
-Qed.
-
-Lemma clear_ok_only_vectors r : clean r -> snd (nl_clear r) = true -> only is_tv (rclear r).
-Proof.
-  intros H Hs. unfold rclear. unfold nl_clear, bind in *.
-  assert (H1 : only (fun t => perm t && negb (primary_side t)) (free_where primary_side r)) by (apply only_free_where; exact H).
-  destruct (snd (regrow true (free_where primary_side r))) eqn:E; [|rewrite E in Hs; discriminate].
-  pose proof (regrow_ok_tags _ true _ H1 E) as H2.
-  pose proof (only_free_where _ trigger_side _ H2) as H3.
-  pose proof (regrow_ok_tags _ false _ H3 Hs) as H4.
-  apply (only_weaken _ is_tv _ ) in H4; [exact H4|]. tagcases; destruct which; cbn in *; try reflexivity; try discriminate; assumption.
+  intros H. unfold rclear, nl_clear. cbv zeta. apply only_two_regrows; [reflexivity|].
+  apply (only_free_to (fun t => perm t && negb (primary_side t)) is_tv); [tagcases|].
+  apply only_free_where. exact H.
 Qed.
 
 Lemma limit0_clear_ok r : r_limit r = 0 -> snd (nl_clear r) = true.
@@ -286,8 +268,8 @@ Qed.
 
 Lemma four_filters (l : list (tag * N)) : forallb (fun e => perm (fst e)) l = true ->
   filter (fun e => negb (is_vec false (fst e)))
-    (filter (fun e => negb (trigger_side (fst e)))
-       (filter (fun e => negb (is_vec true (fst e)))
+    (filter (fun e => negb (is_vec true (fst e)))
+       (filter (fun e => negb (trigger_side (fst e)))
           (filter (fun e => negb (primary_side (fst e))) l))) = [].
 Proof.
   induction l as [|[t p] l IH]; [reflexivity|]. cbn [forallb fst]. intros K. apply andb_true_iff in K. destruct K as [K1 K2].
